@@ -539,10 +539,12 @@ def evaluate__round(self: XPathFunction, context: ta.ContextType = None) -> ta.O
     try:
         number = decimal.Decimal(arg)
         assert isinstance(arg, (int, float, decimal.Decimal))
-        if number > 0:
-            return type(arg)(number.quantize(decimal.Decimal('1'), rounding='ROUND_HALF_UP'))
-        else:
-            return type(arg)(number.quantize(decimal.Decimal('1'), rounding='ROUND_HALF_DOWN'))
+        with decimal.localcontext() as ctx:
+            ctx.prec = 2000  # enough for every xs:double and for decimals rounded at |precision| < 1900
+            if number > 0:
+                return type(arg)(number.quantize(decimal.Decimal('1'), rounding='ROUND_HALF_UP'))
+            else:
+                return type(arg)(number.quantize(decimal.Decimal('1'), rounding='ROUND_HALF_DOWN'))
     except TypeError as err:
         if isinstance(context, XPathSchemaContext):
             return []
